@@ -1,4 +1,5 @@
 //! Reference models, written independently of the implementation and as naively as possible.
 pub mod fdbrute;
 pub mod interp;
+pub mod listrel;
 pub mod unify;
